@@ -307,6 +307,54 @@ theorem emittedQuick_no_fault_partial (ti : Writer.TreeInfo) (root : Writer.GoNo
   obtain ⟨bs, a, hb, hty⟩ := emitQuick_has_typing ti root h qp hq
   exact typing_sound _ (emitQuick_vm_wf ti root h qp hq) bs hb a hty env pos h0 hn fuel
 
+/-! non-vacuity of (B) and (C) -/
+
+/-- the reduced tree of `(?=a)\w+(?<!b)` (the set payload is `CharSet.Hash()` of `\w`) -/
+def tree4 : Writer.GoNode :=
+  .capture 0 (-1) (.concat [.poslook (.char Generated.Opcodes.opOne false false 97),
+    .setloop Generated.Opcodes.opSetloop false false [0, 0, 0, 0, 0, 1, 0, 0, 0, 1, 87] 1 Writer.maxInt32,
+    .neglook (.char Generated.Opcodes.opOne true false 98)])
+
+/-- its emitted code is what `regexp2.MustCompile` produces; it is well-formed, and the executable check finds it typed -/
+example : (Writer.emit Lemmas.Compose.info1 tree4).codes.toList =
+    [23, 25, 31, 34, 31, 9, 97, 33, 36, 2, 0, 1, 5, 0, 2147483647, 34, 23, 21, 73, 98, 35, 36, 32, 0, -1, 40] ∧
+    (Writer.emit Lemmas.Compose.info1 tree4).trackcount = 12 ∧
+    Writer.treeWf Lemmas.Compose.info1 tree4 = true ∧
+    StackTyping.typed (Writer.emit Lemmas.Compose.info1 tree4) = true := by decide
+
+/-- the hypotheses of (B) and (C) are met by the trees of `(?:ab?)*c`, `(a)|b\1` and `(?=a)\w+(?<!b)` -/
+example : ∃ bs a, (Writer.emit Lemmas.Compose.info1 Lemmas.Compose.tree1).boundaries = some bs ∧
+    TypingW (Writer.emit Lemmas.Compose.info1 Lemmas.Compose.tree1) bs a :=
+  emit_has_typing _ _ (by decide)
+example : ∃ s0, init (Writer.emit Lemmas.Compose.info2 Lemmas.Compose.tree2) 1 = .ok s0 ∧
+    ∀ f, (run (Writer.emit Lemmas.Compose.info2 Lemmas.Compose.tree2) demoEnv 1000 s0).1 = .fault f → f = .capRange :=
+  emitted_no_fault_partial _ _ (by decide) demoEnv 1 (by decide) (by decide) 1000
+example : ∃ s0, init (Writer.emit Lemmas.Compose.info1 tree4) 0 = .ok s0 ∧
+    ∀ f, (run (Writer.emit Lemmas.Compose.info1 tree4) demoEnv 1000 s0).1 = .fault f → f = .capRange :=
+  emitted_no_fault_partial _ _ (by decide) demoEnv 0 (by decide) (by decide) 1000
+example : ∃ qp, Writer.emitQuick Lemmas.Compose.info2 Lemmas.Compose.tree3 = some qp ∧
+    ∃ s0, init qp 0 = .ok s0 ∧ ∀ f, (run qp demoEnv 1000 s0).1 = .fault f → f = .capRange :=
+  ⟨_, rfl, emittedQuick_no_fault_partial Lemmas.Compose.info2 Lemmas.Compose.tree3 (by decide) _ rfl demoEnv 0
+    (by decide) (by decide) 1000⟩
+
+/-- the typing hypothesis cannot be dropped: `untypedDemo` (`Lazybranch 3; Getmark; Stop`) is well-formed, its attempt
+    ends in `stackUnderflow` (example in the section above), hence it has NO typing at all -/
+example : Lemmas.StackTyping.untypedDemo.wf = true ∧
+    ¬ ∃ bs a, Lemmas.StackTyping.untypedDemo.boundaries = some bs ∧ TypingW Lemmas.StackTyping.untypedDemo bs a := by
+  refine ⟨by decide, ?_⟩
+  rintro ⟨bs, a, hb, hty⟩
+  obtain ⟨s0, hi, hf⟩ := typing_sound _ (by decide) bs hb a hty demoEnv 0 (by decide) (by decide) 10
+  have hdec : (match init Lemmas.StackTyping.untypedDemo 0 with
+     | .ok s0 => (match (run Lemmas.StackTyping.untypedDemo demoEnv 10 s0).1 with
+        | .fault .stackUnderflow => true
+        | _ => false)
+     | .error _ => false) = true := by decide
+  rw [hi] at hdec
+  simp only at hdec
+  split at hdec
+  · next h => have := hf _ h; cases this
+  · cases hdec
+
 end TypingSound
 
 end RegexVerif.Props.C10
